@@ -1,4 +1,5 @@
 """C17 — Service survives any failure sequence: reconnects, resubscribes, keeps futures (client/service.go)."""
+import os
 
 ASSUMPTIONS = [
     "timing is not modelled: backoff durations, ConnectTimeout/ResubscribeTimeout/QueueTimeout/DisconnectTimeout expiries are events of the "
@@ -21,12 +22,30 @@ ASSUMPTIONS = [
 ]
 
 
+FAMILIES = ["basic", "d8-", "d15-", "resub-sorted", "d17-", "d16-", "s5-", "a-start", "s1-", "s2-", "s3-", "s4-", "s6-", "s7", "b-", "b2-",
+            "b3-", "b4-", "many-", "large-", "rand-", "conc-"]
+
+
 def run(ck):
     ck.coq()
     if not ck.build_harness("service"):
         return
     extra = ["-replay", ck.replay] if ck.replay else []
-    path, _ = ck.harness("c17", extra=extra)
+    path, hout = ck.harness("c17", extra=extra)
+    if any(b.startswith("harness c17 crashed") for b in ck.broken) and not ck.replay:
+        # the service panicked the process: nothing was written.  Find a scenario family that does it by itself.
+        panic = next((l for l in hout if l.startswith("panic:")), "the harness process died")
+        for fam in FAMILIES:
+            rp = os.path.join(ck.work, "family.txt")
+            open(rp, "w").write("family=%s\n" % fam)
+            _, out2 = ck.harness("c17", out_name="family.txt.out", extra=["-replay", rp])
+            if any(l.startswith("panic:") or "goroutine " in l for l in out2):
+                trace = [l for l in out2 if "gomqtt" in l or l.startswith("panic:")][:12]
+                ck.broken = [b for b in ck.broken if not b.startswith("harness c17 crashed")]
+                ck.fail_input("no_panic", "the service panics the process in scenario family %s*: %s" % (fam, panic),
+                              ["family=%s" % fam, panic] + trace)
+                return
+        return
     lines = ck.model("service", "c17", path)
     ex = open(path).read().splitlines()
     per = {}
